@@ -160,4 +160,50 @@ def firstBadPool (i : Nat) : List PassPool → List PassObs → Option (Nat × S
     | none => firstBadPool (i + 1) ps os
   | _, _ => none
 
+/-! ### A replica-based NodePool next to the pod-driven provisioner, and the routing of its events
+
+"For a static (replica-based) NodePool the number of NodeClaims … settles at the replica count."  A NodePool is
+replica-based exactly when `spec.replicas` is set — `replicas: 0` is a static pool that is scaled to zero (or was
+created empty), not a dynamic one.  Its size is decided by `spec.replicas` alone: pending pods never make it grow, and
+its events (and those of its NodeClaims) belong to the static controllers. -/
+
+def replicaBased (replicas : Option Int) : Bool := replicas.isSome
+
+/-- the verdict on one pass of the pod-driven provisioner, seen from a replica-based pool: what was observed before
+    and after the pass; `others` = NodeClaims that belong to no NodePool of the cluster -/
+def checkPodPass (before o : Obs) (others : Nat) : Option String :=
+  if o.err == "panic" then some "the provisioning pass panicked"
+  else if o.total > before.total then
+    some "a pod-driven provisioning pass created NodeClaims in a replica-based NodePool (its size is decided by spec.replicas only, also when that is 0)"
+  else if o.total < before.total || o.deleting != before.deleting then
+    some "a pod-driven provisioning pass removed NodeClaims of a replica-based NodePool"
+  else if o.a + o.d + o.p != o.total then some "GetNodeCount does not report the NodeClaims that exist"
+  else if others != 0 then some "a NodeClaim was created for no NodePool of the cluster"
+  else none
+
+/-- what the static controllers' watches let through for a NodePool / NodeClaim event -/
+structure RouteObs where
+  /-- the pool counts as static -/
+  isStatic : Bool
+  /-- NodePool Create / Update / Delete / Generic events pass the static predicate -/
+  create : Bool
+  update : Bool
+  delete : Bool
+  generic : Bool
+  /-- reconcile requests a NodeClaim event produces for the static controllers -/
+  claimStatic : Nat
+deriving Repr
+
+/-- `replicas`: of the pool as it is now (the new object of an Update event); `claimOfPool`: the NodeClaim of the
+    NodeClaim event carries the label of this (existing) pool -/
+def checkRoute (replicas : Option Int) (claimOfPool : Bool) (o : RouteObs) : Option String :=
+  let rb := replicaBased replicas
+  if o.isStatic != rb then
+    some (if rb then "a NodePool with spec.replicas set is not treated as static" else "a NodePool without spec.replicas is treated as static")
+  else if o.create != rb || o.update != rb || o.delete != rb || o.generic != rb then
+    some "the NodePool's events are not routed by 'spec.replicas is set'"
+  else if o.claimStatic != (if rb && claimOfPool then 1 else 0) then
+    some "the NodeClaim's event does not reach the static controllers exactly when it belongs to a replica-based NodePool"
+  else none
+
 end Karp.Spec.Static
